@@ -35,7 +35,7 @@ type LevelPlanFn func(levels []uint8) []RunSpec
 // ChunkPlan holds the physical choices for one column chunk.
 type ChunkPlan struct {
 	Codec      int
-	Splits     []int       // records per page (nil = all records in one page)
+	Splits     []int             // records per page (nil = all records in one page)
 	RepPlan    map[int][]RunSpec // page index -> explicit plan (absent = DefaultPlan)
 	DefPlan    map[int][]RunSpec
 	SnappyMode int // 0 = golang/snappy encoder, 1 literal-only short, 2 literal 1-byte length form, 3 copy1, 4 copy2, 5 copy4
@@ -48,6 +48,10 @@ type ChunkPlan struct {
 	ChunkStatistics  bool
 	EncodingsWithRLE bool
 	KeyValue         bool
+	// BitPackedLabels: label the level encodings the column does not have
+	// (no definition levels / no repetition levels) BIT_PACKED instead of RLE,
+	// as older writers do; legal because no such level data exists
+	BitPackedLabels bool
 	// unsupported feature injected into this chunk (C18)
 	Feature *Feature
 }
@@ -312,6 +316,14 @@ func WriteForeign(schema *Node, plan FilePlan) ([]byte, error) {
 				}
 				var data []byte
 				repEnc, defEnc, valEnc := EncRLE, EncRLE, EncPlain
+				if cp.BitPackedLabels {
+					if leaf.RepLevel == 0 {
+						repEnc = EncBitPacked
+					}
+					if leaf.DefLevel == 0 {
+						defEnc = EncBitPacked
+					}
+				}
 				var repBytes, defBytes []byte
 				if leaf.RepLevel > 0 {
 					p := cp.RepPlan[pi]
